@@ -136,9 +136,15 @@ package snowflake_client
 //@   ensures {value-or-error} (err == nil) <==> (w != nil)
 //@   at call Catch assert {only-below-capacity-and-not-melted} p.activePeers.n < p.Tongue.max && held(&p.collectLock)
 //@   at call PushBack assert {files-what-was-caught} calls(Catch) == 1
-//@   ensures {catch-failure-is-returned} calls(Catch) == 1 && calls(PushBack) == 0 ==> err != nil
+//@   at entry ghost caughtOK = false
+//@   after call Catch ghost caughtOK = ret1 == nil
+//@   at call send assert {filed-before-it-is-handed-over} calls(PushBack) == 1 && ch == p.snowflakeChan
+//@   ensures {every-caught-peer-is-filed-so-that-End-closes-it} caughtOK ==> calls(PushBack) == 1
+//@   ensures {catch-failure-is-returned} calls(Catch) == 1 && !caughtOK ==> err != nil && calls(PushBack) == 0
 //
 // Pop: never hands a peer to the data path that it found closed; nil after End.
+//@ ghost var caughtOK bool
+//@ ghost var dcTimedOut bool
 //@ ghost var popChecked ref
 //@ ghost var popWasClosed bool
 //@ func (p *Peers) Pop() (r *WebRTCPeer)
@@ -195,7 +201,11 @@ package snowflake_client
 //@   requires c != nil && config != nil && broker != nil
 //@   assumes c.eventsLogger != nil
 //@   at call OnNewSnowflakeEvent#4 assert {timeout-is-reported-with-its-error} unbox(arg0, event.EventOnSnowflakeConnectionFailed).Error != nil
+//@   at entry ghost dcTimedOut = false
+//@   at call OnNewSnowflakeEvent#4 ghost dcTimedOut = true
 //@   ensures {failure-is-returned} calls(preparePeerConnection) == 1
+//@   ensures {a-data-channel-that-never-opened-is-a-failed-attempt} dcTimedOut ==> err != nil
+//@   ensures {staleness-watchdog-exactly-for-successful-peers} (err == nil) <==> (spawns(checkForStaleness) == 1)
 //
 // The connect loop waits either for its retry timer or for the collection to be ended (B1): it cannot outlive End by
 // more than one attempt in flight.
